@@ -33,4 +33,5 @@ fa = [r for r in allres if r.get("must_be_silent") and r["applied"] and not r.ge
 print("refactors: silent=%d false-alarms=%d" % (sum(1 for r in allres if r.get("silent")), len(fa)))
 print("mutants=%d fired=%d missed=%d expected-undetected=%d not-applied=%d" % (
     len(allres), sum(1 for r in allres if r["fired"]), len(missed),
-    sum(1 for r in allres if r["applied"] and not r["expect"]), sum(1 for r in allres if not r["applied"])))
+    sum(1 for r in allres if r["applied"] and not r["expect"] and not r.get("must_be_silent")),
+    sum(1 for r in allres if not r["applied"])))
